@@ -1241,7 +1241,7 @@ class ExcelCmp(collections.namedtuple('ExcelCmp', 'cmp_type value empty')):
         return not self == other
 
 
-def build_operator_operand_fixup(capture_error_state):
+def build_operator_operand_fixup(capture_error_state, resolve=None):
 
     def array_fixup(left_op, op, right_op):
         """use numpy broadcasting for ranges"""
@@ -1267,6 +1267,13 @@ def build_operator_operand_fixup(capture_error_state):
             String to Number coercion
             String / Number multiplication
         """
+        if resolve is not None and (is_address(left_op) or is_address(right_op)):
+            if not (is_address(left_op) and is_address(right_op) and
+                    op == 'Pow'):
+                # a reference returned by OFFSET or INDIRECT stands for its
+                # value (two references are the operands of a range union)
+                left_op, right_op = resolve(left_op), resolve(right_op)
+
         left_list, right_list = list_like(left_op), list_like(right_op)
         if left_list or right_list:
             # element by element, also when the other operand is an error
